@@ -379,11 +379,29 @@ _UNIT_CACHE = {}
 _EXPANDED = set()
 
 
+def ensure_tool():
+    """the extraction tool is built by ./setup.sh; build it here too if it is missing or older than its sources"""
+    tdir = os.path.join(ROOT, "tool")
+    srcs = [os.path.join(tdir, "Cargo.toml")] + [os.path.join(tdir, "src", f) for f in os.listdir(os.path.join(tdir, "src"))]
+    if os.path.exists(ZX) and all(os.path.getmtime(f) <= os.path.getmtime(ZX) for f in srcs):
+        return True
+    env = dict(os.environ)
+    env["CARGO_NET_OFFLINE"] = "true"
+    try:
+        subprocess.run(["cargo", "build", "--release", "--offline"], cwd=tdir, env=env, capture_output=True, text=True, timeout=1800)
+    except Exception:  # noqa
+        pass
+    return os.path.exists(ZX)
+
+
 def main():
     if len(sys.argv) < 2:
         print(__doc__)
         return 2
     pid = sys.argv[1]
+    if not ensure_tool():
+        print("UNDECIDED property=%s reason=the extraction tool (tool/) could not be built" % pid)
+        return 2
     tier = os.environ.get("VERIF_TIER", "quick")
     if "--tier" in sys.argv:
         tier = sys.argv[sys.argv.index("--tier") + 1]
